@@ -257,6 +257,11 @@ def judge(case, o, m):
              expected="numeric dtype", clause="plain numbers out")
         return fails, False
     # ---- (ii) the Lean model, value / uncertainty under the FB bound
+    if any(l.get("ty") == "npf32" for l in case["leaves"]):
+        # numpy (NEP 50) evaluates `python float <op> np.float32` in binary32 -- in the scalar operation
+        # exactly as in the array operation, so part (i) above is judged in full; the binary64 model
+        # is 1e-8 away by construction and is not compared
+        return fails, False
     skipped = False
     for i in range(exp_len):
         me, ma, e = m["elems"][i], m["at"][i], o["elems"][i]
@@ -306,8 +311,21 @@ def run_cases(ctx, cases, ref=False):
     for c, o, m in zip(cases, obs, mod):
         lab = c["label"].split(":")
         dist[lab[0] + ":" + lab[1]] += 1
-        if len(lab) > 2:
+        if len(lab) > 2 and lab[2] != "special":
             dist["kinds:" + lab[2]] += 1
+        if lab[-1] == "special":
+            dist["special-values:{}".format(lab[0])] += 1
+            if lab[0] == "fn":
+                dist["special-values:fn:{}".format(lab[1])] += 1
+        if c.get("readings"):
+            nr = len(next(iter(c["readings"].values())))
+            dist["repeated-measurement operand:" + ("as many readings as array elements"
+                                                    if nr == c["n"] else "another number of readings")] += 1
+        for l in c["leaves"]:
+            if l.get("ty"):
+                dist["number-type:" + l["ty"]] += 1
+            if l.get("ints") and any(l["ints"]) and not all(l["ints"]):
+                dist["list mixing ints and floats"] += 1
         dist["len:{}".format(c["n"])] += 1
         dist["corr" if c["rho"] else "nocorr"] += 1
         fs, sk = judge(c, o, m)
